@@ -26,6 +26,7 @@ def run(rep):
     R.row_index_provenance(rep)
     R.template_agreement(rep)
     R.separator_guard(rep)
+    R.empty_selection_means_all(rep)
     R.one_append_per_column(rep)
     c02.analyse(rep, owner_filter=lambda o: o.startswith(("KW:", "PARAM:")),
                 rule="no-inplace-on-shared", rels=["reading.py"], only=R.SCOPE["C13"])
